@@ -27,7 +27,8 @@ func VH_ST_WorkerLoop() {
 	sq := make(chan *bus.SQE[t_aio.Submission, t_aio.Completion], 3)
 	flush := make(chan int64, 1)
 	a := &vhLoopAIO{}
-	w := &SqliteStoreWorker{config: &Config{BatchSize: vx.Choose(2) + 1}, db: db, sq: sq, flush: flush, aio: a, metrics: metrics.New(prometheus.NewRegistry())}
+	w := VXWorker(db)
+	w.config, w.sq, w.flush, w.aio, w.metrics = &Config{BatchSize: vx.Choose(2) + 1}, sq, flush, a, metrics.New(prometheus.NewRegistry())
 	vx.Havoc()
 	vx.SqlFaults(vx.Opt("faults", 1))
 	ids := []string{"s0", "s1", "s2"}
